@@ -14,6 +14,8 @@ def jobs(tier, seed):
     for v in ("2.0", "2.2"):
         for new_type in (True, False):
             out.append({"kind": "sched", "version": v, "new_type": new_type, "bound": 1 if q else 2})
+        # ... and while the poll thread stores the node's report of the value that was pending
+        out.append({"kind": "sched", "version": v, "new_type": False, "bound": 1 if q else 2, "a_is": "report"})
     return out
 
 
@@ -87,7 +89,10 @@ def run_sched(job):
         ctx = {"gw": gw, "t": t, "n0": n0}
 
         def a():
-            gw.tasks.transport.send(gw.logic(wake))
+            if job.get("a_is") == "report":
+                gw.tasks.transport.send(gw.logic("1;1;1;0;2;1"))      # the node reports the pending V_STATUS value
+            else:
+                gw.tasks.transport.send(gw.logic(wake))
 
         def b():
             gw.set_child_value(1, 1, 3, "50")
@@ -98,7 +103,7 @@ def run_sched(job):
         for run, ctx, stuck, sched in ex.explore(make, job["bound"], max_runs=4000):
             res.evals += 1
             res.count("controller_vs_wakeup_schedules")
-            case = {"kind": "sched", "version": version, "new_type": new_type, "schedule": sched, "bound": job["bound"]}
+            case = {"kind": "sched", "version": version, "new_type": new_type, "schedule": sched, "bound": job["bound"], "a_is": job.get("a_is")}
             if stuck:
                 res.count("stuck_schedules")
                 continue
@@ -118,6 +123,20 @@ def run_sched(job):
             allsent = [l for l in t.log[ctx["n0"]:]]
             n_status = sum(1 for l in first if l.startswith("1;1;1;") and l.rstrip().endswith(";2;1"))
             n_new = sum(1 for l in allsent if l.startswith("1;1;1;") and l.rstrip().endswith(";3;50"))
+            if job.get("a_is") == "report":
+                # the report settled the pending V_STATUS: it is never sent again, at no later wake-up
+                gw.tasks.transport.send(gw.logic(wake))
+                drain(gw)
+                later = [l for l in t.log[ctx["n0"]:]]
+                n_again = sum(1 for l in later if l.startswith("1;1;1;") and l.rstrip().endswith(";2;1"))
+                if n_again:
+                    res.violation("sched:reported-value-sent-again", f"the node reported the pending value while the controller set another one; the reported value was sent {n_again} times at later wake-ups ({later!r}) under schedule {sched}", case)
+                if n_new < 1:
+                    res.violation("sched:concurrently-set-value-never-sent", f"the value set while the report was stored was never sent ({later!r}) under schedule {sched}", case)
+                if run.switches:
+                    res.count("controller_vs_wakeup_schedules_with_real_interleaving")
+                    res.nontrivial(("sched-report", version, sched["first"], tuple(i for i, c in enumerate(sched["choices"]) if c)))
+                continue
             if n_status != 1:
                 res.violation(f"sched:pending-value-sent-{n_status}-times", f"the value pending before the wake-up was sent {n_status} times in its burst ({first!r}) under schedule {sched}", case)
             if n_new < 1:
@@ -138,7 +157,7 @@ def run(job):
 
 def replay(case):
     if case.get("kind") == "sched":
-        return run_sched({"kind": "sched", "version": case["version"], "new_type": case["new_type"], "bound": case.get("bound", 1)})
+        return run_sched({"kind": "sched", "version": case["version"], "new_type": case["new_type"], "bound": case.get("bound", 1), "a_is": case.get("a_is")})
     return replay_lock(ID, case)
 
 
